@@ -82,6 +82,8 @@ func zzC14NewTwo(kind, m, n, keyMode, tstMode int, withFromEnd bool) *zzC14Two {
 	}
 	if withFromEnd {
 		c.feMode = vrt.Choice("feMode", 3)
+		// explicit :from-end nil only together with absent bounds
+		vrt.Assume(!(c.feMode == 1 && (c.hasS1 || c.e1Mode != 0 || c.hasS2 || c.e2Mode != 0)))
 	}
 	return c
 }
@@ -177,8 +179,8 @@ func VerifC14Search(kind, m, n, keyMode, tstMode int) {
 		}
 	}
 	// known findings
-	vrt.Carve("C14-search-empty-pattern-index", cls == zzC14BValid && ln == 0 && 0 < s2)
-	vrt.Carve("C14-search-from-end-misses-first", cls == zzC14BValid && c.feMode == 2 && 0 < ln && want == s2)
+	vrt.Carve("C14-search-wrong-index", cls == zzC14BValid && ln == 0 && 0 < s2)
+	vrt.Carve("C14-search-wrong-index", cls == zzC14BValid && c.feMode == 2 && 0 < ln && want == s2)
 	scope := slip.NewScope()
 	form := slip.List{slip.Symbol("search"), zzC14Quote(zzC14Seq(kind, c.a)), zzC14Quote(zzC14Seq(kind, c.b))}
 	form = append(form, c.keywords()...)
@@ -193,7 +195,7 @@ func VerifC14Search(kind, m, n, keyMode, tstMode int) {
 	}
 }
 
-// zzC14MismatchStartBad: the region of C14-bound-at-length-rejected for
+// zzC14MismatchStartBad: the region of C14-valid-args-rejected for
 // one of the two sequences.
 func zzC14MismatchStartBad(n int, s int64, eMode int) bool {
 	return (0 < n && s == int64(n)) || (n == 0 && eMode == 2)
@@ -238,7 +240,7 @@ func VerifC14Mismatch(kind, m, n, keyMode, tstMode int) {
 			}
 		}
 	}
-	vrt.Carve("C14-bound-at-length-rejected", cls == zzC14BValid &&
+	vrt.Carve("C14-valid-args-rejected", cls == zzC14BValid &&
 		(zzC14MismatchStartBad(m, s1, c.e1Mode) || zzC14MismatchStartBad(n, s2, c.e2Mode)))
 	vrt.Carve("C14-mismatch-from-end-index", cls == zzC14BValid && 0 < diffAt && diffAt+s1 != want)
 	scope := slip.NewScope()
